@@ -312,8 +312,14 @@ def _shard_entry(modname, env: Env, conn, budget):
             strat = check.strategy(env)
             n = check.examples(env)
             if strat is not None and n > 0:
+                import warnings
+
                 import hypothesis
                 from hypothesis import HealthCheck, Phase, given, settings
+                from hypothesis.errors import HypothesisWarning
+
+                # "Generating overly large repr": Hypothesis renders the strategy for an internal event when a unique list gives up
+                warnings.filterwarnings("ignore", category=HypothesisWarning)
 
                 @hypothesis.seed(env.seed * 1000 + env.shard)
                 @settings(max_examples=n, database=None, deadline=None, phases=[Phase.generate],
